@@ -51,7 +51,7 @@ func (f *Mapc) Call(s *slip.Scope, args slip.List, depth int) (result slip.Objec
 	d2 := depth + 1
 	caller := ResolveToCaller(s, fn, d2)
 
-	list, ok := args[1].(slip.List)
+	list, ok := listArg(args[1])
 	if !ok {
 		slip.TypePanic(s, depth, "lists", args[1], "list")
 	}
@@ -59,7 +59,7 @@ func (f *Mapc) Call(s *slip.Scope, args slip.List, depth int) (result slip.Objec
 		min := len(list)
 		var l2 slip.List
 		for i := 1; i < len(args); i++ {
-			if l2, ok = args[i].(slip.List); !ok {
+			if l2, ok = listArg(args[i]); !ok {
 				slip.TypePanic(s, depth, "lists", args[i], "list")
 			}
 			if len(l2) < min {
@@ -69,7 +69,7 @@ func (f *Mapc) Call(s *slip.Scope, args slip.List, depth int) (result slip.Objec
 		ca := make(slip.List, len(args)-1)
 		for n := 0; n < min; n++ {
 			for i := 1; i < len(args); i++ {
-				l2 := args[i].(slip.List)
+				l2, _ := listArg(args[i])
 				ca[i-1] = l2[n]
 			}
 			_ = caller.Call(s, ca, d2)
